@@ -1,6 +1,8 @@
 """C14 — connection slots are bounded by MaxConnections and always given back."""
 
 MODULE = "DtailModel.Props.C14"
+# scripts with real waits: a disagreement counts only if it reproduces when re-run alone (flake policy, DESIGN 2.3)
+TIMED_OPS = ("c14.script",)
 GROUPS = ["C14"]
 LOGGER = "none"
 JOBS = 16
